@@ -1,6 +1,6 @@
 (** C18, second round — proofs about LightNodeExt.v: collaborator faults, legacy clients, genesis,
     the vesting calendar, the attestation machinery around a sale. *)
-From Coq Require Import List ZArith Bool Lia.
+From Coq Require Import String List ZArith Bool Lia.
 From Paloma Require Import Base.Dec Paloma.LightNode Paloma.LightNodeProofs Paloma.CalendarProofs Paloma.LightNodeExt.
 From Paloma Require Gen.C18.
 Import ListNotations.
@@ -840,4 +840,34 @@ Example ex_hostile_sale :
   lic_ids (lics (snd (fst (try_sale 1 5 11 (4, false) 7 (o, s))))) = [4] /\
   snd (try_sale 1 5 12 (4, false) 7 (o, s)) = Ok /\
   snd (fst (try_sale 1 5 12 (4, false) 7 (o, s))) = s.
+Proof. vm_compute. repeat split; reflexivity. Qed.
+
+(** ================= 6. the source facts of the second round ================= *)
+Lemma source_round2 :
+  Gen.C18.create_collab_calls = ["accountKeeper.AddressCodec"; "accountKeeper.HasAccount"; "accountKeeper.NewAccount";
+                                 "accountKeeper.SetAccount"; "bankKeeper.SendCoinsFromAccountToModule"]%string /\
+  Gen.C18.activate_collab_calls = ["accountKeeper.AddressCodec"; "accountKeeper.GetAccount"; "accountKeeper.SetAccount";
+                                   "bankKeeper.SendCoinsFromModuleToAccount"]%string /\
+  Gen.C18.sale_collab_calls = ["bankKeeper.HasBalance"; "k.CreateLightNodeClientLicense"; "accountKeeper.AddressCodec";
+                               "feegrantKeeper.GrantAllowance"]%string /\
+  snd (create_licence_f FErr 0 (1, false) (6, false) 0 10 1 ex_s0) = - Z.of_nat (List.length Gen.C18.create_collab_calls) /\
+  snd (activate_f FErr 0 (3, false) (run ex_s0 (firstn 4 ex_ops))) = - Z.of_nat (List.length Gen.C18.activate_collab_calls) /\
+  snd (sale_licence_f FErr 0 (4, true) 7 (run ex_s0 (firstn 4 ex_ops)))
+    = - (1 + Z.of_nat (List.length Gen.C18.create_collab_calls) + (Z.of_nat (List.length Gen.C18.sale_collab_calls) - 2)) /\
+  Gen.C18.funder_loop_exits_early = false /\
+  Gen.C18.funder_loop_body = "{ if k.bankKeeper.HasBalance(ctx, funders.Accounts[i], coin) { funder = funders.Accounts[i] } }"%string /\
+  Gen.C18.legacy_calls = ["LightNodeClientFeegranter"; "AllLightNodeClientLicenses"; "AllowancesByGranter"; "GetLightNodeClient"]%string /\
+  Gen.C18.set_legacy_calls = ["GetLegacyLightNodeClients"; "SetLightNodeClient"]%string /\
+  Gen.C18.legacy_licence_test = "license.ClientAddress == grant.Grantee"%string /\
+  Gen.C18.init_genesis_calls = ["SetParams"; "SetLightNodeClientLicense"; "SetLightNodeClientFeegranter";
+                                "SetLightNodeClientFunders"; "SetLightNodeClient"]%string /\
+  Gen.C18.export_genesis_calls = ["GetParams"; "AllLightNodeClientLicenses"; "LightNodeClientFeegranter";
+                                  "LightNodeClientFunders"; "AllLightNodeClients"]%string /\
+  Gen.C18.init_genesis_licence_args = "license.ClientAddress | license"%string /\
+  Gen.C18.genesis_validate_body = "{ return gs.Params.Validate() }"%string /\
+  Gen.C18.try_attestation_calls = ["SetLastObservedEthereumBlockHeight"; "setLastObservedSkywayNonce"; "SetAttestation";
+                                   "processAttestation"; "emitObservedEvent"]%string /\
+  Gen.C18.try_attestation_callers = ["attestationTally"]%string /\
+  Gen.C18.endblocker_defers_recover = true /\
+  Gen.C18.endblocker_calls = ["createBatch"; "attestationTally"; "pruneAttestations"]%string.
 Proof. vm_compute. repeat split; reflexivity. Qed.
